@@ -150,6 +150,23 @@ pub fn run(cx: &mut Ctx) {
 
     // ---- construction from a byte size
     let nums: Vec<usize> = vec![0, 1, 2, 4095, 4096, 4097, 65534, 65535, 65536, 65537, 1 << 20, usize::MAX];
+    // block numbers and sizes whose LOW bits look valid while high bits are set (a narrowing
+    // conversion or a shift that drops high bits would accept them)
+    for k in [16u32, 17, 20, 28, 31, 32, 33, 48, 59, 60, 61, 62, 63] {
+        for j in [0usize, 1, 7, 4095, 65535] {
+            let num = (1usize << k).wrapping_add(j);
+            for size in [16usize, 64, 1024] {
+                do_new(cx, num, j % 2 == 0, size);
+            }
+        }
+    }
+    for k in 12..usize::BITS {
+        for j in [1usize, 15, 16, 17, 1024, 2048, 4095] {
+            let size = (1usize << k).wrapping_add(j);
+            do_new(cx, 0, false, size);
+            do_new(cx, 5, true, size);
+        }
+    }
     for &num in &nums {
         for size in 0..=8200usize {
             do_new(cx, num, size % 2 == 1, size);
